@@ -21,12 +21,12 @@ open Bp Bp.EnumM
 structure EnumDSt where
   enums : List (String × Cls String) := []
 
-def showName : Option String → String
+def showEnumName : Option String → String
   | some n => n
   | none => "~"
 
 def showMember (c : Cls String) (m : Member String) : String :=
-  s!"{showName m.name} {m.number} {if isCanonical c m then "c" else "n"}"
+  s!"{showEnumName m.name} {m.number} {if isCanonical c m then "c" else "n"}"
 
 def showOut (c : Cls String) : Out String → String
   | .member m => showMember c m
@@ -50,7 +50,7 @@ def parseAttr : String → Option Attr
   | "other" => some .other
   | _ => none
 
-def parseOp : List String → Option (Op String)
+def parseEnumOp : List String → Option (EnumM.Op String)
   | ["call", v] => (parseInt v).map .call
   | ["getitem", n] => some (.getitem n)
   | ["getattr", n] => some (.getattr n)
@@ -111,7 +111,7 @@ def handleEnumD (st : EnumDSt) : List String → Option (EnumDSt × String)
       | .error e => "ERR " ++ errName e)
   | "ENUMOP" :: eid :: rest => do
     let c ← st.enums.lookup eid
-    let op ← parseOp rest
+    let op ← parseEnumOp rest
     let (c', o) := step c op
     some (st.put eid c', showOut c' o)
   | ["ENUMWIRE", n] => do
